@@ -125,6 +125,10 @@ def opt_precedence(repo, res):
         ("update-order:no-priority", {user_xdg: U, pwd: W}, {"XDG_CONFIG_HOME": "/xdg"}, None, {**defaults, **U, **W}),
         ("defaults-first", {}, {"XDG_CONFIG_HOME": "/xdg"}, None, dict(defaults)),
         ("priority-guard", {}, {}, {"scalar_type": "complex128"}, {**defaults, "scalar_type": "complex128"}),
+        # falsy values given with priority are values like any other (--table_atol 0, verbosity 0, an explicit False)
+        ("priority-falsy-values", {user_xdg: {"table_atol": 1.0, "verbosity": 10}, pwd: {"sum_factorization": True}}, {"XDG_CONFIG_HOME": "/xdg"},
+         {"table_atol": 0.0, "verbosity": 0, "sum_factorization": False}, {**defaults, "table_atol": 0.0, "verbosity": 0, "sum_factorization": False}),
+        ("priority-empty-dict", {pwd: W}, {}, {}, {**defaults, **W}),
         ("tuple-order:user-file-under-home-config", {user_home: U}, {}, None, {**defaults, **U}),
         ("tuple-order:pwd-file-only", {pwd: W}, {}, None, {**defaults, **W}),
         ("file-name:xdg-is-not-home", {user_home: U}, {"XDG_CONFIG_HOME": "/xdg"}, None, dict(defaults)),
